@@ -5,6 +5,7 @@ import (
 	"math/big"
 	"reflect"
 	"sort"
+	"sync"
 	"time"
 
 	"github.com/go-spatial/geom"
@@ -715,7 +716,7 @@ func runC05(c *hc.Ctx) error {
 // ---------------------------------------------------------------------------------------------------
 func runC07(c *hc.Ctx) error {
 	c.CorrInit("Texel.Corr.C07", "theories/Corr/C07.v", 100)
-	c.Sum.Rule = "polygons valid or not on synthetic dyadic grids incl. equal-area shells, multi-level requests; each case is run 3x in-process (fresh Go map seeds per map), with the id list shuffled, with every ring reversed (valid polygons) and with the reverse flag toggled; distinct by (grid, polygon, ids, flags); non-trivial = >= 2 levels requested or collapse"
+	c.Sum.Rule = "polygons valid or not on synthetic dyadic grids incl. equal-area shells, multi-level requests; each case is run 3x in-process (fresh Go map seeds per map), with the id list shuffled, with every ring reversed (valid polygons) and with the reverse flag toggled; batches of 8 valid cases repeated 60x from 8 goroutines at once; distinct by (grid, polygon, ids, flags); non-trivial = >= 2 levels requested or collapse"
 	c.Sum.Oracle = "repeated runs return deeply equal results; shuffled/duplicated id lists return the same map; for a valid polygon any subset of rings given in the opposite direction returns identical geometry; the reverse flag returns the ring-wise reverse of rings with >= 3 vertices and leaves points and lines alone"
 	c.Sum.Partial = "the float winding sign of degenerate (zero-area) INPUT rings is outside the theorem (valid polygons have non-zero area); fresh-process repetition is covered by in-process repetition only (Go randomises map iteration per map, not per process)"
 	grids := syntheticGrids()
@@ -788,7 +789,68 @@ func runC07(c *hc.Ctx) error {
 		}
 	}
 	componentStream(c)
+	concurrentRepetition(c, grids)
 	return nil
+}
+
+// concurrentRepetition: "in every process and on every repetition" also while other goroutines are snapping other
+// polygons: a batch of cases is first run alone, then all of them repeatedly from as many goroutines at once; every
+// result must be the one obtained alone (no mutable state shared between calls).
+func concurrentRepetition(c *hc.Ctx, grids []*Grid) {
+	type job struct {
+		g    *Grid
+		poly [][]Pt
+		ids  []int
+		cfg  snap.Config
+		want *Result
+	}
+	batches := c.N(3, 40)
+	for b := 0; b < batches; b++ {
+		var jobs []job
+		for len(jobs) < 8 {
+			g, poly, _ := validCase(c, grids, 12)
+			ids := randIDs(c.Rng, g)
+			cfg := randCfg(c.Rng)
+			cfg.IgnoreOutsideGrid = false
+			r := runSnap(g, poly, ids, cfg, watchdog)
+			if r.Panic != "" {
+				continue
+			}
+			jobs = append(jobs, job{g, poly, ids, cfg, r})
+		}
+		type bad struct {
+			j   int
+			got *Result
+		}
+		bads := make(chan bad, len(jobs))
+		var wg sync.WaitGroup
+		for j := range jobs {
+			wg.Add(1)
+			go func(j int) {
+				defer wg.Done()
+				for rep := 0; rep < 60; rep++ {
+					r := runSnap(jobs[j].g, jobs[j].poly, jobs[j].ids, jobs[j].cfg, watchdog)
+					if r.Panic != "" || !reflect.DeepEqual(r.Raw, jobs[j].want.Raw) {
+						bads <- bad{j, r}
+						return
+					}
+				}
+			}(j)
+		}
+		wg.Wait()
+		close(bads)
+		c.Sum.Evaluations += len(jobs) * 60
+		c.Count("concurrent repetition batches (8 goroutines x 60 calls)")
+		for x := range bads {
+			jb := jobs[x.j]
+			obs := any(x.got.Raw)
+			if x.got.Panic != "" {
+				obs = x.got.Panic + ": " + x.got.PanicMsg
+			}
+			c.Violate(hc.Violation{What: "the same polygon and settings returned different geometry while other goroutines were snapping other polygons (state shared between calls)", Input: caseJSON(jb.g, jb.poly, jb.ids, jb.cfg, jb.want), Observed: obs})
+			break
+		}
+	}
 }
 
 func reverseOnly(a, b map[int][][][]Pt) bool {
@@ -953,6 +1015,18 @@ func runC09(c *hc.Ctx) error {
 	c.Sum.Oracle = "any vertex outside the half-open integer extent => panic OutsideGrid by default, empty result with ignore-outside-grid, and never a snapped result; all vertices inside => no OutsideGrid"
 	c.Sum.Assumptions = []string{"'outside by any amount' is decided on the tool's integer coordinates (units of 1e-10): a float less than one unit outside truncates onto the border and is below the tool's resolution"}
 	grids := syntheticGrids()
+	// the integer extent the index is built on is the extent of the tile matrix set, computed here from the set's own
+	// definition (bottom-left origin, one root tile of cellSize(0) x tileWidth) and not read back from the implementation
+	for _, g := range grids {
+		root := g.TMS.TileMatrices[0]
+		span := root.CellSize * float64(root.TileWidth) * float64(root.MatrixWidth)
+		o := *root.PointOfOrigin
+		want := [4]int64{intgeom.FromGeomOrd(o[0]), intgeom.FromGeomOrd(o[1]), intgeom.FromGeomOrd(o[0] + span), intgeom.FromGeomOrd(o[1] + span)}
+		c.Sum.Evaluations++
+		if g.Ext != want {
+			c.Violate(hc.Violation{What: "the index is not built on the extent of the tile matrix set (vertices are range-checked against a shifted extent)", Input: map[string]any{"grid": g.Name, "origin": o, "corner": "bottomLeft", "span": span}, Observed: g.Ext, Expected: want})
+		}
+	}
 	n := c.N(1500, 60000)
 	if c.Search {
 		n *= 10
